@@ -1,5 +1,5 @@
 """C13: constraint-handler registration histories, real pthreads vs. the Lean state machine."""
-import os, sys, json, random, time, itertools, hashlib
+import subprocess, re, os, sys, json, random, time, itertools, hashlib
 import orch, buildlib, proto
 from orch import Result, log, VERIF
 
@@ -115,6 +115,27 @@ def run(tier, seed, replay=None):
             res.mismatch.append(dict(kind="correspondence", fn="handlers", history=h, impl=dc["out"], model=dm.get("out")))
         if dm is not None:
             res.modelled.add("set/thrd_set/invoke str+mem")
+    # concurrent (unserialised) process-wide registrations: the micro-step machine of Props/C13Micro.lean predicts that the
+    # load / store pair of set_*_constraint_handler_s is not an exchange (micro_returns_prev_witness); replay on the C
+    if not replay:
+        try:
+            race = buildlib.build_harness(L, os.path.join(VERIF, "harness", "hreg_race.c"), os.path.join(L["dir"], "hreg_race"))
+            out = subprocess.run([race], capture_output=True, text=True, timeout=300).stdout
+            mm = re.search(r"returned-twice=(\d+) never-returned=(\d+)", out)
+            res.count("race", out.strip()[:120])
+            if mm and int(mm.group(1)) > 0:
+                sig = "set:concurrent-registration:previous-returned-twice"
+                ent = next((e for e in orch.load_known() if orch.known_match(e, pid, sig, 1)), None)
+                if ent is not None:
+                    kk = ent.get("id", sig)
+                    res.known_hit.setdefault(kk, dict(ent, count=0, example=out.strip(), sigs=set()))
+                    res.known_hit[kk]["count"] += int(mm.group(1))
+                    res.known_hit[kk]["sigs"].add(sig)
+                else:
+                    res.violations.append((sig, dict(kind="property-fails-on-implementation", property=pid, harness="harness/hreg_race.c",
+                                                     output=out.strip(), model="SafeC.Props.C13Micro.micro_returns_prev_witness")))
+        except Exception as e:      # the auxiliary replay must never break the check
+            res.count("race", "not run: %s" % str(e)[:80])
     trusted = ["Lean 4.33 kernel; axioms propext, Classical.choice, Quot.sound only (audited)",
                "Lean model lean/SafeC/Models/Handlers.lean of safe_{str,mem}_constraint.c (8 lines of C each), tied by executing the same histories with real pthreads (harness/hreg.c)",
                "sequential consistency for the serialised history order (threads handed a semaphore token per operation)",
